@@ -131,6 +131,19 @@ def extend(repo, T, ex):
         isinstance(n, ast.Call) and isinstance(n.func, ast.Attribute) and n.func.attr == "_stop_ping_thread"
         for n in ast.walk(hd))
 
+    # ---- setSock(): the WebSocket the application drives is built with real locks (`enable_multithread=True`, a literal):
+    #      app.send() from any thread, the ping thread and the loop's own replies share one transport
+    ss = inner["setSock"]
+    mt = None
+    for n in ast.walk(ss):
+        if isinstance(n, ast.Call) and getattr(n.func, "id", "") == "WebSocket":
+            for k in n.keywords:
+                if k.arg == "enable_multithread":
+                    mt = isinstance(k.value, ast.Constant) and k.value.value is True
+    if mt is None:
+        raise ex.ExtractError("setSock: WebSocket(... enable_multithread=...) not found")
+    T["appSockMultithread"] = mt
+
     # ---- handleDisconnect(): an exception met while the application is closing (keep_running already False) is not an error
     #      of the run: `if not self.keep_running and not isinstance(e, (KeyboardInterrupt, SystemExit)): teardown(); return`
     #      as the FIRST statement (before has_errored is set and before anything is reported)
